@@ -231,7 +231,7 @@ theorem interpret_nil {r : Repairs} {l : Loaded} (h : interpret r l = []) :
 
 theorem mandatory_nil {r : Repairs} {l : Loaded} (h : mandatoryMissing r l = []) :
     l.name ≠ .str "" ∧ ¬ l.runNumber < 1 ∧ l.annealerType ≠ "" ∧ l.modelType ≠ .str "" ∧
-    (r.runNumberBounded = true → l.runNumber ≤ 1000000) ∧ (r.reportEveryChecked = true → ¬ l.reportEvery < 1) := by
+    (r.runNumberBounded = true → l.runNumber ≤ maxRunNumber) ∧ (r.reportEveryChecked = true → ¬ l.reportEvery < 1) := by
   unfold mandatoryMissing at h
   simp only [List.append_eq_nil_iff] at h
   obtain ⟨⟨⟨⟨h1, h2⟩, h3⟩, h4⟩, h5⟩ := h
@@ -292,10 +292,12 @@ theorem site_outputPath {c : Cfg} (h : OutputPathNotADirectory c = false) (p : S
   have hg := textField_eq_path (c := c) (s := .scenario) (k := "OutputPath") (d := ".") hp
   simpa [OutputPathNotADirectory, hg] using h
 
-theorem site_cpuProfile {c : Cfg} (h : CpuProfilePathNotCreatable c = false) (p : String)
-    (hp : (mkLoaded c).cpuProfilePath = .path p) : creatable p = true := by
+theorem site_cpuProfile {c : Cfg} (h : CpuProfilePathNotCreatable c = false) (hd : CpuProfilePathIsDirectory c = false)
+    (p : String) (hp : (mkLoaded c).cpuProfilePath = .path p) : creatable p = true := by
   have hg := textField_eq_path (c := c) (s := .scenario) (k := "CpuProfilePath") (d := "") hp
-  simpa [CpuProfilePathNotCreatable, hg] using h
+  have h1 : parentIsDirectory p = true := by simpa [CpuProfilePathNotCreatable, hg] using h
+  have h2 : (pathKind p == .dir) = false := by simpa [CpuProfilePathIsDirectory, hg] using hd
+  simp [creatable, h1, bne, h2]
 
 theorem site_runNumber {c : Cfg} (h : RunNumberOutOfRange c = false) :
     (mkLoaded c).runNumber < 9223372036854775808 := by
@@ -572,9 +574,23 @@ theorem unsafe_cpuProfile {c : Cfg} (r : Repairs) (env : Env) (h : CpuProfilePat
   | some v =>
     cases v with
     | path p =>
-      have hk : creatable p = false := by simpa [hg] using h
+      have hk : parentIsDirectory p = false := by simpa [hg] using h
       have := hs.cpuProfile p (by simp [mkLoaded, textField, hg])
-      rw [hk] at this; cases this
+      simp [creatable, hk] at this
+    | _ => simp [hg] at h
+
+theorem unsafe_cpuProfileDir {c : Cfg} (r : Repairs) (env : Env) (h : CpuProfilePathIsDirectory c = true) :
+    ¬ RunSafe r env (mkLoaded c) := by
+  intro hs
+  unfold CpuProfilePathIsDirectory at h
+  cases hg : get c .scenario "CpuProfilePath" with
+  | none => simp [hg] at h
+  | some v =>
+    cases v with
+    | path p =>
+      have hk : (pathKind p == .dir) = true := by simpa [hg] using h
+      have := hs.cpuProfile p (by simp [mkLoaded, textField, hg])
+      simp [creatable, bne, hk] at this
     | _ => simp [hg] at h
 
 theorem unsafe_runNumber {c : Cfg} (r : Repairs) (env : Env) (h : RunNumberOutOfRange c = true) :
@@ -728,7 +744,7 @@ theorem repaired_runNumber {r : Repairs} {c : Cfg} (hr : r.runNumberBounded = tr
     RunNumberOutOfRange c = false := by
   obtain ⟨_, _, hm⟩ := loadErrors_nil h
   obtain ⟨_, _, _, _, h5, _⟩ := mandatory_nil hm
-  have hb : uintField c .scenario "RunNumber" 1 ≤ 1000000 := h5 hr
+  have hb : uintField c .scenario "RunNumber" 1 ≤ 2147483647 := h5 hr
   unfold RunNumberOutOfRange
   cases hg : get c .scenario "RunNumber" with
   | none => rfl
@@ -745,7 +761,7 @@ theorem repaired_outputPath {r : Repairs} {c : Cfg} (hr : r.outputPathChecked = 
   unfold scenarioErr at hs
   rw [hr] at hs
   simp only [Bool.or_eq_false_iff, Bool.true_and] at hs
-  have h2 := hs.2
+  have h2 := hs.1.2
   unfold OutputPathNotADirectory
   cases hg : get c .scenario "OutputPath" with
   | none => rfl
@@ -753,6 +769,23 @@ theorem repaired_outputPath {r : Repairs} {c : Cfg} (hr : r.outputPathChecked = 
     cases v with
     | path p =>
       have ho : (mkLoaded c).outputPath = .path p := by simp [mkLoaded, textField, hg]
+      rw [ho] at h2
+      simpa using h2
+    | _ => rfl
+
+theorem repaired_cpuProfile {r : Repairs} {c : Cfg} (hr : r.cpuProfilePathChecked = true)
+    (hs : scenarioErr r (mkLoaded c) = false) : CpuProfilePathNotCreatable c = false := by
+  unfold scenarioErr at hs
+  rw [hr] at hs
+  simp only [Bool.or_eq_false_iff, Bool.true_and] at hs
+  have h2 := hs.2
+  unfold CpuProfilePathNotCreatable
+  cases hg : get c .scenario "CpuProfilePath" with
+  | none => rfl
+  | some v =>
+    cases v with
+    | path p =>
+      have ho : (mkLoaded c).cpuProfilePath = .path p := by simp [mkLoaded, textField, hg]
       rw [ho] at h2
       simpa using h2
     | _ => rfl
